@@ -162,20 +162,12 @@ def check_transition_complete(ctx: Ctx, oid: str) -> None:
                     continue
 
 
-def check(ctx: Ctx) -> None:
+def check_endmarker_requeue(ctx: Ctx, oid: str) -> None:
+    """an ENDMARKER taken from a channel queue is put back on that queue before leaving (shared: C03.a, C04.k)"""
     repo = ctx.repo
-    ctx.decides = ("ENDMARKER is put back wherever it is taken; both implementations of the closed transition (Channel.close, "
-                   "ChannelFactory._local_close) queue ENDMARKER, unregister, set _receiveclosed and _closed (not under sendonly); send "
-                   "refuses a closed channel before _send; close is idempotent; executetask closes the channel on every exit; __del__ "
-                   "notifies the peer with the right frame; close frames take the same synchronous send path as data.")
-    ctx.not_decided = "outcomes of close-vs-data races; asynchronous KeyboardInterrupt between two statements is not modelled."
-    ctx.trust("queue.Queue FIFO", "Event semantics")
     f_recv = repo.func(f"{GB}.Channel.receive")
     f_setcb = repo.func(f"{GB}.Channel.setcallback")
-    f_close = repo.func(f"{GB}.Channel.close")
-    f_lclose = repo.func(f"{GB}.ChannelFactory._local_close")
-
-    with ctx.obligation("C03.a", "endmarker-requeue") as ob:
+    with ctx.obligation(oid, "endmarker-requeue") as ob:
         n = 0
         for fi in (f_recv, f_setcb):
             cfg = build_cfg(repo, fi, Oracle(repo, fi, precise=True))
@@ -201,6 +193,22 @@ def check(ctx: Ctx) -> None:
                                 if not gets or unparse(gets[0].func.value) != q:
                                     ob.violation(fi, c, "ENDMARKER is re-queued on a different queue than it was taken from")
         ob.require(n >= 2, f"{n} ENDMARKER test sites (floor 2)")
+
+
+def check(ctx: Ctx) -> None:
+    repo = ctx.repo
+    ctx.decides = ("ENDMARKER is put back wherever it is taken; both implementations of the closed transition (Channel.close, "
+                   "ChannelFactory._local_close) queue ENDMARKER, unregister, set _receiveclosed and _closed (not under sendonly); send "
+                   "refuses a closed channel before _send; close is idempotent; executetask closes the channel on every exit; __del__ "
+                   "notifies the peer with the right frame; close frames take the same synchronous send path as data.")
+    ctx.not_decided = "outcomes of close-vs-data races; asynchronous KeyboardInterrupt between two statements is not modelled."
+    ctx.trust("queue.Queue FIFO", "Event semantics")
+    f_recv = repo.func(f"{GB}.Channel.receive")
+    f_setcb = repo.func(f"{GB}.Channel.setcallback")
+    f_close = repo.func(f"{GB}.Channel.close")
+    f_lclose = repo.func(f"{GB}.ChannelFactory._local_close")
+
+    check_endmarker_requeue(ctx, "C03.a")
 
     check_transition_complete(ctx, "C03.b")
 
